@@ -202,7 +202,7 @@ def validate_trace(module, trace_path, workdir, shards=None, per_shard=300, time
             cuts.append(s)
     cuts.append(len(lines))
     pieces = [(cuts[i], cuts[i + 1]) for i in range(len(cuts) - 1) if cuts[i] < cuts[i + 1]]
-    cfg = cfg_text or (BIG_CONSTS + ('  KeyBytes <- TraceKeyBytes\n  AddrOfIndex <- TraceAddrOfIndex\n' if module == 'Trace_World' else '')
+    cfg = cfg_text or (BIG_CONSTS + ('  KeyBytes <- TraceKeyBytes\n  AddrOfIndex <- TraceAddrOfIndex\n  LEGACY = {}\n' if module == 'Trace_World' else '')
                        + 'SPECIFICATION Spec\nCHECK_DEADLOCK FALSE\n')
 
     def one(idx_piece):
